@@ -138,7 +138,7 @@ Example C14_hist_nonvacuous :
   exists s K, hist enumA_std enumN_std s K /\ 5%positive ∈ K /\ (5 < a_next s)%positive.
 Proof.
   eexists _, _. split.
-  - eapply hist_op; [apply (hist_init enumA_std enumN_std c14_me)|]. vm_compute. reflexivity.
+  - eapply (hist_op enumA_std enumN_std _ _ (ONewChannel c14_x)); [apply (hist_init enumA_std enumN_std c14_me)|]. vm_compute. reflexivity.
   - split; vm_compute; [|reflexivity]. set_solver.
 Qed.
 
